@@ -4,6 +4,8 @@
 (* events: ["w", addr, v]  ["r", addr, v]  ["tick", n] (n machine cycles)     *)
 (*         ["wf", addr, v, [[a, old, new]..]]  a write with the complete diff *)
 (*         of the 64 KiB read-out before / after it (C07)                     *)
+(*         ["hot", s1, s2]  harness put the sound / timer / serial hardware    *)
+(*         into a busy state (seeded by s1, s2); register contents unknown     *)
 EXTENDS MemMap, TLC, Json, IOUtils, Sequences
 
 Scens == ndJsonDeserialize(IOEnv.TRACE)
@@ -22,12 +24,16 @@ Put(c, v) == /\ known' = known \cup {c}
 Forget(S) == /\ known' = known \ S
              /\ mem' = [x \in known' |-> mem[x]]
 
+OamCells == {x \in known : x >= 65024 /\ x < 65184}
 Accessible(cls) == CASE cls = "vram" -> ~lcd [] cls \in {"oam", "void"} -> (~lcd /\ ~dma) [] OTHER -> TRUE
 
 WriteStep(a, v) ==
    LET cls == Class(a)  c == Canon(a) IN
    CASE cls \in {"wram", "hram", "ie", "plainreg", "timer", "dma"} -> Put(c, v) /\ UNCHANGED lcd /\ dma' = (dma \/ cls = "dma")
-     [] cls \in {"vram", "oam"} -> (IF Accessible(cls) THEN Put(c, v) ELSE Forget({c})) /\ UNCHANGED <<lcd, dma>>
+     [] cls = "vram" -> (IF Accessible(cls) THEN Put(c, v) ELSE Forget({c})) /\ UNCHANGED <<lcd, dma>>
+     \* an OAM access while the PPU scans may rewrite whole rows (the OAM bug, C17): nothing in OAM is known afterwards
+     [] cls = "oam" -> (IF Accessible(cls) THEN Put(c, v) ELSE Forget(OamCells)) /\ UNCHANGED <<lcd, dma>>
+     [] cls = "void" -> (IF Accessible(cls) THEN UNCHANGED <<mem, known>> ELSE Forget(OamCells)) /\ UNCHANGED <<lcd, dma>>
      [] cls = "masked" -> Put(c, v & WMask(a)) /\ UNCHANGED <<lcd, dma>>
      [] cls = "lcdc"   -> Put(c, v) /\ lcd' = (v >= 128) /\ UNCHANGED dma
      [] cls = "ro"     -> Put(c, v) /\ UNCHANGED <<lcd, dma>>           \* remembered as "the value that must NOT be stored"
@@ -39,10 +45,11 @@ ReadStep(a, v) ==
             IF c \in known THEN v = mem[c] /\ UNCHANGED <<mem, known, lcd, dma>>
             ELSE Put(c, v) /\ UNCHANGED <<lcd, dma>> /\ (cls = "lcdc" => lcd = (v >= 128))
      [] cls \in {"vram", "oam"} ->
-            IF ~Accessible(cls) THEN UNCHANGED <<mem, known, lcd, dma>>
+            IF ~Accessible(cls) THEN (IF cls = "oam" THEN Forget(OamCells) ELSE UNCHANGED <<mem, known>>) /\ UNCHANGED <<lcd, dma>>
             ELSE IF c \in known THEN v = mem[c] /\ UNCHANGED <<mem, known, lcd, dma>>
             ELSE Put(c, v) /\ UNCHANGED <<lcd, dma>>
-     [] cls = "void"     -> (Accessible(cls) => v = 0) /\ UNCHANGED <<mem, known, lcd, dma>>
+     [] cls = "void"     -> /\ (Accessible(cls) => v = 0) /\ UNCHANGED <<lcd, dma>>
+                            /\ IF Accessible(cls) THEN UNCHANGED <<mem, known>> ELSE Forget(OamCells)
      [] cls = "unmapped" -> v = 255 /\ UNCHANGED <<mem, known, lcd, dma>>
      [] cls = "masked"   ->
             /\ (v & OMask(a)) = OMask(a)
@@ -74,6 +81,7 @@ Next == /\ l <= Len(Scens[sc].ev) /\ l' = l + 1 /\ UNCHANGED sc
            CASE e[1] = "w"    -> WriteStep(e[2], e[3])
              [] e[1] = "r"    -> ReadStep(e[2], e[3])
              [] e[1] = "tick" -> TickStep(e[2])
+             [] e[1] = "hot"  -> Forget(known) /\ dma' = FALSE /\ UNCHANGED lcd   \* the harness rewrote sound, timer and serial registers
              [] e[1] = "wf"   -> FootStep(e[2], e[3], e[4])
              [] OTHER         -> FALSE
 
